@@ -373,9 +373,12 @@ func (g *c12Gen) program(class string) c12Program {
 	case "subquery":
 		b := g.smallT()
 		p.Tables = []string{t.Name, b.Name}
-		switch g.r.Intn(3) {
+		switch g.r.Intn(4) {
 		case 0:
 			p.SQL = fmt.Sprintf("SELECT id, v FROM %s WHERE v IN (SELECT v FROM %s WHERE %s)", t.Name, b.Name, g.pred(""))
+		case 3:
+			// an inline table is never cached: every record's evaluation opens the file again, from several goroutines
+			p.SQL = fmt.Sprintf("SELECT id, v FROM %s WHERE k IN (SELECT k FROM CSV_INLINE(',', `%s.csv`) WHERE %s)", t.Name, b.Name, g.pred(""))
 		case 1:
 			p.Stream = "subquery-outer-cache"
 			p.SQL = fmt.Sprintf("SELECT a.id FROM %s a WHERE EXISTS (SELECT 1 FROM %s b WHERE b.v = a.v AND b.k = a.k)", t.Name, b.Name)
